@@ -65,6 +65,7 @@ pub fn replay(path: &str) -> i32 {
         }
         Some("c03") | Some("c03-ctor") | Some("c03-wm") => client_codec::replay_c03(scn),
         Some("c04") => client_codec::replay_c04(scn),
+        Some("server-stream-command") => framing::replay_server_stream_command(scn),
         Some("server-stream") => framing::replay_server_stream(scn),
         Some("c07-server") | Some("c07-client") => framing::replay_c07(scn),
         Some("client-sm-wrap") => client_sm::replay_wrap(),
